@@ -987,6 +987,15 @@ def fam_nonstr(tier):
                                 status, headers = placed(where, x, shape)
                                 yield mk(status, headers, path, body, version, expose, idx,
                                          {"fam": "nonstr", "where": where, "cls": type(x).__name__, "pos": shape})
+    # a non-string value under a name the server itself interprets
+    for name in ("Content-Length", "content-length", "CONTENT-LENGTH", "Connection", "Date"):
+        for x in (2, True, 2.0, b"2", None):
+            for path in ("initial", "exc_info-before-output"):
+                for body in BODIES:
+                    for version in ("1.0", "1.1"):
+                        idx += 1
+                        yield mk("200 Qz", [("A-Zq3", "aZq3"), (name, x)], path, body, version, idx % 2 == 0, idx,
+                                 {"fam": "nonstr", "where": "value:" + name.lower(), "cls": type(x).__name__, "pos": 0})
 
 
 def special_programs():
